@@ -227,7 +227,8 @@ pub fn run_worker(spec: &Spec, a: &WorkerArgs) -> i32 {
     }
     let t0 = Instant::now();
     let status_path = a.out.with_extension("status");
-    let hang_secs = spec.hang_secs * a.hang_mult;
+    // HCVERIF_HANG_SECS: absolute per-case limit, used only by the selftest sweeps (many hanging mutants)
+    let hang_secs = std::env::var("HCVERIF_HANG_SECS").ok().and_then(|s| s.parse().ok()).unwrap_or(spec.hang_secs * a.hang_mult);
     {
         // watchdog thread: logical progress is per case; fires only when one case exceeds the
         // generous limit. exit code 3 = hang candidate (confirmed separately by the parent).
